@@ -2,7 +2,7 @@
    Every answer is VL [model; spec] where spec = VL [] when the case is outside the
    specification's precondition (then only model == implementation is decided). *)
 From Coq Require Import ZArith List Bool.
-From EV Require Import Res Arr Val StableSort FilterIndex FilterIndexSpec.
+From EV Require Import Res Arr Val StableSort FilterIndex FilterIndexSpec FrameHist FrameHistSpec.
 Import ListNotations.
 Open Scope Z_scope.
 
@@ -54,6 +54,23 @@ Definition as_step (v:val) : option step :=
 
 Definition as_steps (v:val) : option (list step) :=
   match v with VL l => all_some (map as_step l) | _ => None end.
+
+Definition as_fev (v:val) : option fev :=
+  match v with
+  | VL [VZ 0; st] => match as_step st with Some s => Some (FCall s) | None => None end
+  | VL [VZ 1; VZ src; VZ name; f] =>
+    match as_field f with Some f => Some (FWrite src name (fbody f)) | None => None end
+  | VL [VZ 2; VZ src; VZ name; idx] =>
+    match as_list idx with Some idx => Some (FFieldIndex src name idx) | None => None end
+  | VL [VZ 3; VZ src; VZ name; VZ dt; flt] =>
+    match as_list flt with Some flt => Some (FFieldFilter src name dt flt) | None => None end
+  | VL [VZ 4; VZ src; VZ name; idx] =>
+    match as_list idx with Some idx => Some (FSessIndex src name idx) | None => None end
+  | _ => None
+  end.
+
+Definition as_fevs (v:val) : option (list fev) :=
+  match v with VL l => all_some (map as_fev l) | _ => None end.
 
 Definition as_list3 (v:val) : option (list (list (list Z))) :=
   match v with VL l => all_some (map as_list2 l) | _ => None end.
@@ -222,6 +239,13 @@ Definition entry_C09 (v:val) : val :=
     | Some w, Some steps =>
       both (of_res vworld (run_steps w steps))
            (match spec_steps w steps with Some w' => vworld w' | None => vna end)
+    | _, _ => vbad
+    end
+  | VL [VZ 7; w; evs] =>
+    match as_world w, as_fevs evs with
+    | Some w, Some evs =>
+      both (of_res vworld (run_fhist w evs))
+           (match spec_fhist w evs with Some w' => vworld w' | None => vna end)
     | _, _ => vbad
     end
   | VL [VZ 5; VZ what; src; VZ dt; arg; dest] =>
